@@ -67,6 +67,9 @@ impl Args {
 fn install_panic_hook() {
     std::panic::set_hook(Box::new(|info| {
         let loc = info.location().map(|l| format!("{}:{}", l.file(), l.line())).unwrap_or_default();
+        if std::env::var_os("VH_DEBUG").is_some() {
+            eprintln!("PANIC {}", info);
+        }
         let _ = world::try_with(|w| {
             w.last_panic_msg = Some(loc);
         });
@@ -386,7 +389,7 @@ fn cmd_run(a: &Args) -> i32 {
             continue;
         }
         if let Some(d) = deadline {
-            if AGG.with(|a| a.borrow().histories) % 64 == 0 && std::time::Instant::now() > d {
+            if (a.flag("light") || AGG.with(|a| a.borrow().histories) % 64 == 0) && std::time::Instant::now() > d {
                 exhausted = false;
                 break;
             }
@@ -827,6 +830,11 @@ fn cmd_replay(a: &Args) -> i32 {
     for l in &log {
         println!("  {}", l);
     }
+    world::with(|w| {
+        for (i, o) in w.objs.iter().enumerate() {
+            println!("  obj #{} {:?} ext={} held={:?} wext={} wheld={:?} rec={:?} loop={} addr={:#x}", i, o.state, o.ext, o.held, o.wext, o.wheld, o.rec, o.looprec, o.addr);
+        }
+    });
     println!("digest={:016x} objects={} all_dead={}", r.digest, r.objects, r.all_dead);
     if let Some(w) = &r.inconclusive {
         println!("INCONCLUSIVE: {}", w);
